@@ -96,6 +96,9 @@ class SArr:
     def view(self, *a, **k):
         return self
 
+    def sum(self, axis=None, dtype=None, out=None, keepdims=False, **k):
+        return self.reduce_axis(axis, "add", keepdims)
+
     def __array__(self, *a, **k):
         raise core.Unsupported("symbolic array coerced to a NumPy array (unsupported kernel step)")
 
@@ -314,9 +317,38 @@ class SArr:
         return self._derive(self.shape, at)
 
     def reduce_axis(self, axis, op="add", keepdims=False):
+        if isinstance(axis, (tuple, list)):
+            if len(axis) != 1:
+                raise core.Unsupported("reduction over several axes at once on a symbolic array")
+            axis = axis[0]
+        if axis is None:
+            if self.ndim != 1:
+                raise core.Unsupported("full reduction of a multi-dimensional symbolic array")
+            axis = 0
         axis = int(axis) % self.ndim
         st = self.struct
         if st is None:
+            n = self.shape[axis]
+            if isinstance(n, int) and n <= 64:
+                # a short concrete extent (e.g. stacked partial results): plain finite sum
+                src = self
+
+                def at(idx, src=src, axis=axis, n=n, keepdims=keepdims):
+                    if not keepdims:
+                        idx = list(idx[:axis]) + [None] + list(idx[axis:])
+                    tot = z3.RealVal(0)
+                    for k in range(n):
+                        j = list(idx)
+                        j[axis] = z3.IntVal(k)
+                        tot = tot + src._at(tuple(j))
+                    return tot
+
+                shape = list(self.shape)
+                if keepdims:
+                    shape[axis] = 1
+                else:
+                    del shape[axis]
+                return self._derive(shape, at)
             raise core.Unsupported("reduction over an array that is neither a view of a source nor a concatenation of views")
         if st[0] == "cat":
             cax, parts = st[1], st[2]
@@ -474,10 +506,7 @@ class SArr:
         if method == "reduce":
             if name != "add":
                 raise core.Unsupported(f"{name}.reduce: only add has a decidable prefix model (see DESIGN C19)")
-            ax = kwargs.get("axis", 0)
-            if ax is None or isinstance(ax, tuple):
-                raise core.Unsupported("multi-axis reduce on a symbolic array")
-            return inputs[0].reduce_axis(ax, name, keepdims=bool(kwargs.get("keepdims", False)))
+            return inputs[0].reduce_axis(kwargs.get("axis", 0), name, keepdims=bool(kwargs.get("keepdims", False)))
         if method != "__call__":
             raise core.Unsupported(f"ufunc {ufunc.__name__}.{method} on a symbolic array")
         arrs = [x for x in inputs if isinstance(x, SArr)]
